@@ -1,7 +1,8 @@
 SPECIFICATION Spec
-CONSTANTS N = 3
+CONSTANTS N = 4
  MaxCalls = 3
- FinalOccursCheck = FALSE
+ WithList = TRUE
+ FinalOccursCheck = TRUE
 INVARIANT TypeOK
 INVARIANT Flat
 INVARIANT AcyclicOrRejected
